@@ -430,9 +430,8 @@ Proof.
     unfold lb_continue. rewrite Hn. rewrite lb_scan_1thread.
     match goal with |- context [lb_ret ?s1 _ _ _] => set (s1' := s1) end.
     destruct Hloc as [[-> Hc]|[-> Hr]]; unfold lb_ret.
-    + cbn [fst]. apply inv_mk; auto.
-      * intros g. hsimp. rewrite Hc. exact (Hfib g).
-      * unfold lok; cbn. exact Hc.
+    + cbn [fst]. apply inv_mk; auto;
+        try (intros g; hsimp; rewrite Hc; exact (Hfib g)); try (unfold lok; cbn; exact Hc).
     + match goal with |- context [finish ?a ?b ?c ?d] => destruct (finish a b c d) as [e1 T1] eqn:EX end.
       cbn [fst]. replace T1 with (snd (finish 0 T (cur T) 0%Z)) by (rewrite EX; reflexivity).
       apply inv_finish; auto.
@@ -456,4 +455,379 @@ Proof.
       destruct Hr as [Hr|Hr]; auto. right. rewrite upd_other; auto. congruence.
   - (* Fin *)
     exact I0.
+Qed.
+
+Lemma init_inv N prog : prog_ok N prog -> Inv N (fst (init true [prog])).
+Proof.
+  intros Hp.
+  assert (Hr : run (fst (init true [prog])) 0) by (left; reflexivity).
+  destruct (start_spec N (fst (init true [prog])) 0 prog 0 1 Hp Hr) as (Hc & Hp' & Hl & Hh & Hs).
+  constructor; unfold fib_ok, T0; cbn [init fst nthr to_store sfrom sto fstt dq thr length map combine seq nth snd]; auto.
+  intros f. unfold Fq, Sq; cbn [dq init fst]. rewrite Hh. constructor; cbn; try lia.
+Qed.
+
+Lemma ready_thread0 N s t : Inv N s -> mstatus M s t = SReady -> t = 0.
+Proof.
+  intros I H. cbn in H. unfold status_of in H. rewrite (i_n N s I) in H.
+  destruct (Nat.ltb_spec t 1); [lia|discriminate].
+Qed.
+
+Theorem reachable_inv N prog s :
+  prog_ok N prog -> reachable M (fst (init true [prog])) s -> Inv N s.
+Proof.
+  intros Hp R. induction R as [|s t R IH Hst].
+  - apply init_inv; exact Hp.
+  - rewrite (ready_thread0 N s t IH Hst). apply step_inv. exact IH.
+Qed.
+
+(* every held fiber exists (state <> 0) *)
+Lemma held_exists N s f : Inv N s -> In f (held (T0 s)) -> fstt s f <> 0%Z.
+Proof.
+  intros I Hin. pose proof (i_loc N s I) as L. unfold lok, held, run, kok in *.
+  destruct (pc (T0 s)); try contradiction;
+    try (destruct k; try contradiction; try (exfalso; tauto));
+    destruct (cur (T0 s)) eqn:Ec; cbn [opt In] in Hin;
+    intuition (subst; try lia; try congruence).
+Qed.
+
+Lemma places_range N s f : Inv N s -> In f (places s) -> fstt s f <> 0%Z /\ 1 <= f <= N.
+Proof.
+  intros I Hin. pose proof (i_fib N s I f) as [_ Hq _ _ Hr].
+  assert (H0 : fstt s f <> 0%Z).
+  { unfold places in Hin. apply in_app_or in Hin. destruct Hin as [Hin|Hin].
+    - eapply held_exists; eauto.
+    - rewrite Hq; [discriminate|]. rewrite <- cnt_app. apply cnt_In. exact Hin. }
+  auto.
+Qed.
+
+Lemma places_NoDup N s : Inv N s -> NoDup (places s).
+Proof.
+  intros I. apply cnt_NoDup. intros f. pose proof (i_fib N s I f) as [H _ _ _ _].
+  unfold places. rewrite !cnt_app. lia.
+Qed.
+
+Lemma places_length N s : Inv N s -> length (held (T0 s)) + length (Fq s) + length (Sq s) <= N.
+Proof.
+  intros I. pose proof (NoDup_range_length (places s) N (places_NoDup N s I)) as H.
+  unfold places in H at 2. rewrite !app_length in H. rewrite Nat.add_assoc in H. apply H.
+  intros f Hf. apply (places_range N s f I Hf).
+Qed.
+
+(* the conservation statement (C02, scheduler half; used by C10) *)
+Lemma conservation_of_inv N s : Inv N s ->
+  NoDup (places s) /\
+  (forall f, In f (Fq s ++ Sq s) -> fstt s f = 2%Z) /\
+  (forall f, fstt s f = 1%Z \/ fstt s f = 2%Z -> In f (places s)) /\
+  (forall f, In f (places s) -> fstt s f <> 0%Z /\ 1 <= f <= N) /\
+  (forall f, fstt s f = 0 \/ fstt s f = 1 \/ fstt s f = 2 \/ fstt s f = 3)%Z /\
+  length (places s) <= N /\
+  (sfrom s 0 = 1 \/ sfrom s 0 = 2) /\
+  ((forall k tmp, pc (thr s 0) <> PN5 k tmp) -> sto s 0 = 3 - sfrom s 0).
+Proof.
+  intros I. split; [apply (places_NoDup N s I)|].
+  split. { intros f Hf. apply (f_queued _ _ _ _ _ _ (i_fib N s I f)). rewrite <- cnt_app. apply cnt_In; exact Hf. }
+  split. { intros f Hf. apply cnt_In. unfold places. rewrite !cnt_app.
+           pose proof (f_placed _ _ _ _ _ _ (i_fib N s I f) Hf). lia. }
+  split. { intros f Hf. apply (places_range N s f I Hf). }
+  split. { intros f. pose proof (f_state _ _ _ _ _ _ (i_fib N s I f)). lia. }
+  split. { pose proof (places_length N s I). unfold places. rewrite !app_length. lia. }
+  split. { apply (i_from N s I). }
+  apply (i_to N s I).
+Qed.
+
+(* ------------------------------------------------------------------ *)
+(* Fairness: the machine instrumented with
+     byp g  = number of times fiber_scheduler_next handed out ANOTHER fiber
+              while g was READY, since g was last handed out (byp g is 0
+              whenever g is not READY, see g_zero, so this is "since g
+              became READY");
+     hand   = the log of the fibers handed out by next, oldest first.
+   A hand-out is the PN8 step that does not take the SAVING branch. *)
+Record ist := { base : st; byp : nat -> nat; hand : list nat }.
+
+Definition lstep (x : ist) (t : nat) : ist :=
+  let s := base x in
+  let s' := fst (step s t) in
+  match pc (thr s t) with
+  | PN8 _ y =>
+      if Z.eqb (fstt s y) 5 then {| base := s'; byp := byp x; hand := hand x |}
+      else {| base := s';
+              byp := fun g => if Nat.eqb g y then 0
+                              else if Z.eqb (fstt s g) 2 then S (byp x g) else byp x g;
+              hand := hand x ++ [y] |}
+  | _ => {| base := s'; byp := byp x; hand := hand x |}
+  end.
+
+Lemma lstep_erase x t : base (lstep x t) = fst (step (base x) t).
+Proof.
+  unfold lstep. destruct (pc (thr (base x) t)); try reflexivity.
+  destruct (Z.eqb (fstt (base x) x0) 5); reflexivity.
+Qed.
+
+Definition iinit (fixed : bool) (prog : list op) : ist :=
+  {| base := fst (init fixed [prog]); byp := fun _ => 0; hand := [] |}.
+
+Inductive ireach (fixed : bool) (prog : list op) : ist -> Prop :=
+| ir_init : ireach fixed prog (iinit fixed prog)
+| ir_step x t : ireach fixed prog x -> mstatus M (base x) t = SReady -> ireach fixed prog (lstep x t).
+
+Lemma ireach_base fixed prog x :
+  ireach fixed prog x -> reachable M (fst (init fixed [prog])) (base x).
+Proof.
+  induction 1 as [|x t R IH Hst]; [constructor|].
+  rewrite lstep_erase. apply (reach_step M _ (base x) t IH Hst).
+Qed.
+
+Lemma reachable_ireach fixed prog s :
+  reachable M (fst (init fixed [prog])) s -> exists x, ireach fixed prog x /\ base x = s.
+Proof.
+  induction 1 as [|s t R [x [Hx Hb]] Hst].
+  - exists (iinit fixed prog). split; [constructor|reflexivity].
+  - exists (lstep x t). split.
+    + constructor; auto. rewrite Hb. exact Hst.
+    + rewrite lstep_erase, Hb. reflexivity.
+Qed.
+
+(* executing a schedule on the instrumented machine (ungranted picks are no-ops) *)
+Definition igrant (x : ist) (t : nat) : ist :=
+  match mstatus M (base x) t with SReady => lstep x t | _ => x end.
+Definition irun (x : ist) (sch : list nat) : ist := fold_left igrant sch x.
+
+Lemma ireach_irun fixed prog sch : forall x, ireach fixed prog x -> ireach fixed prog (irun x sch).
+Proof.
+  induction sch as [|t r IH]; intros x R; cbn; auto.
+  apply IH. unfold igrant. destruct (mstatus M (base x) t) eqn:E; auto. constructor; auto.
+Qed.
+
+Lemma irun_erase sch : forall x, base (irun x sch) = fst (run_sched M (base x) sch).
+Proof.
+  induction sch as [|t r IH]; intros x; cbn [irun fold_left run_sched]; auto.
+  fold (irun (igrant x t) r). rewrite IH. unfold igrant, grant.
+  destruct (mstatus M (base x) t) eqn:E.
+  - cbn. destruct (run_sched M (base x) r); reflexivity.
+  - rewrite lstep_erase. change (mstep M (base x) t) with (step (base x) t).
+    destruct (step (base x) t) as [s1 e1]. cbn [fst].
+    destruct (run_sched M s1 r); reflexivity.
+  - cbn. destruct (run_sched M (base x) r); reflexivity.
+Qed.
+
+(* ---- the bypass invariant ---- *)
+Definition pendT (T : tst) : nat := match pc T with PN8 _ _ => 1 | _ => 0 end.
+
+(* fs = fiber states, F / S = the deques, pd = 1 iff a popped fiber is about
+   to be handed out, b = the bypass counters *)
+Record GI (N : nat) (fs : nat -> Z) (F S : list nat) (pd : nat) (b : nat -> nat) : Prop := {
+  g_zero : forall g, fs g <> 2%Z -> b g = 0;
+  g_S : forall g, In g S -> b g + length F + pd + 1 <= N;
+  g_F : forall p g, nth_error F p = Some g -> b g + p + pd + 2 <= 2 * N;
+  g_all : forall g, b g <= 2 * (N - 1)
+}.
+
+(* fibers held by the thread that are READY have counter 0, except the one
+   about to be handed out at PN8 *)
+Definition gloc (b : nat -> nat) (T : tst) : Prop :=
+  match pc T with
+  | PY2 nf | PY3 nf | PI1 nf => b nf = 0
+  | PY4 nf ts => b nf = 0 /\ b ts = 0
+  | PSched f _ => b f = 0
+  | _ => True
+  end.
+
+Record GInv (N : nat) (x : ist) : Prop := {
+  g_inv : Inv N (base x);
+  g_gi : GI N (fstt (base x)) (Fq (base x)) (Sq (base x)) (pendT (T0 (base x))) (byp x);
+  g_loc : gloc (byp x) (T0 (base x))
+}.
+
+Lemma GI_frame N fs fs' F S pd b :
+  GI N fs F S pd b -> (forall g, fs' g <> 2%Z -> fs g <> 2%Z \/ b g = 0) -> GI N fs' F S pd b.
+Proof.
+  intros [Hz HS HF Ha] H. constructor; auto.
+  intros g Hg. destruct (H g Hg); auto.
+Qed.
+
+Lemma startpc_g b T : startpc (pc T) -> gloc b T /\ pendT T = 0.
+Proof. unfold gloc, pendT. destruct (pc T); cbn; tauto. Qed.
+
+Lemma finish_g b t T c v : gloc b (snd (finish t T c v)) /\ pendT (snd (finish t T c v)) = 0.
+Proof.
+  apply startpc_g.
+  unfold finish.
+  assert (G : forall p k, startpc (pc (snd (start t c p k)))).
+  { induction p as [|o r IH]; intros k; cbn [start]; [exact I|].
+    assert (Hrec : forall e0 : list Z, startpc (pc (snd (let '(e, T) := start t c r (S k) in (e0 ++ e, T))))).
+    { intros e0. specialize (IH (S k)). destruct (start t c r (S k)); exact IH. }
+    destruct o; try (destruct (Nat.eqb c 0)); try apply Hrec; exact I. }
+  specialize (G (prog T) (S (opi T))). destruct (start t c (prog T) (S (opi T))). exact G.
+Qed.
+
+Lemma T0_set_thr s T' : T0 (set_thr s 0 T') = T'.
+Proof. reflexivity. Qed.
+Lemma Fq_set_thr s T' : Fq (set_thr s 0 T') = Fq s. Proof. reflexivity. Qed.
+Lemma Sq_set_thr s T' : Sq (set_thr s 0 T') = Sq s. Proof. reflexivity. Qed.
+
+(* schedule(): push on the batch being filled *)
+Lemma GI_push N fs F S b f :
+  GI N fs F S 0 b -> b f = 0 -> length F + 1 <= N -> GI N fs F (f :: S) 0 b.
+Proof.
+  intros [Hz HS HF Ha] H0 Hl. constructor; auto.
+  intros g [<-|Hg]; [lia|auto].
+Qed.
+
+(* next(): the swap, done only when the drained batch is empty *)
+Lemma GI_swap N fs S b :
+  GI N fs [] S 0 b -> length S <= N -> GI N fs S [] 0 b.
+Proof.
+  intros [Hz HS HF Ha] Hl. constructor; auto.
+  - intros g [].
+  - intros p g Hp. assert (Hin : In g S) by (eapply nth_error_In; eauto).
+    assert (p < length S) by (apply nth_error_Some; congruence).
+    specialize (HS g Hin). cbn in HS. lia.
+Qed.
+
+(* next(): pop_bottom *)
+Lemma GI_pop N fs y F S b : GI N fs (y :: F) S 0 b -> GI N fs F S 1 b.
+Proof.
+  intros [Hz HS HF Ha]. constructor; auto.
+  - intros g Hg. specialize (HS g Hg). cbn [length] in HS. lia.
+  - intros p g Hp. specialize (HF (Datatypes.S p) g Hp). lia.
+Qed.
+
+(* next() returns y: every other READY fiber is bypassed once more *)
+Lemma GI_hand N fs F S b y :
+  GI N fs F S 1 b ->
+  (forall g, fs g = 2%Z -> g <> y -> In g F \/ In g S) ->
+  GI N fs F S 0 (fun g => if Nat.eqb g y then 0 else if Z.eqb (fs g) 2 then Datatypes.S (b g) else b g).
+Proof.
+  intros [Hz HS HF Ha] Hq. constructor.
+  - intros g Hg. destruct (Nat.eqb_spec g y); auto. destruct (Z.eqb_spec (fs g) 2); [contradiction|auto].
+  - intros g Hg. specialize (HS g Hg). destruct (Nat.eqb g y); [lia|]. destruct (Z.eqb (fs g) 2); lia.
+  - intros p g Hp. specialize (HF p g Hp). destruct (Nat.eqb g y); [lia|]. destruct (Z.eqb (fs g) 2); lia.
+  - intros g. destruct (Nat.eqb_spec g y); [lia|]. destruct (Z.eqb_spec (fs g) 2); auto.
+    destruct (Hq g e n) as [Hin|Hin].
+    + apply In_nth_error in Hin. destruct Hin as [p Hp]. specialize (HF p g Hp). lia.
+    + specialize (HS g Hin). lia.
+Qed.
+
+Ltac fin_g x T :=
+  match goal with |- context [finish ?a ?b ?c ?d] =>
+    let A := fresh "A" in let B := fresh "B" in let EX := fresh "EX" in
+    pose proof (finish_g (byp x) a b c d) as [A B];
+    destruct (finish a b c d) as [?e1 ?T1] eqn:EX; cbn [snd] in A, B;
+    cbn [fst]; rewrite T0_set_thr, ?Fq_set_thr, ?Sq_set_thr; rewrite B; split; [|exact A]
+  end.
+
+Theorem gstep N x : GInv N x -> GInv N (lstep x 0).
+Proof.
+  intros [I0 G L]. pose proof (step_inv N _ I0) as I'.
+  cut (GI N (fstt (base (lstep x 0))) (Fq (base (lstep x 0))) (Sq (base (lstep x 0)))
+          (pendT (T0 (base (lstep x 0)))) (byp (lstep x 0)) /\ gloc (byp (lstep x 0)) (T0 (base (lstep x 0)))).
+  { intros [A B]. constructor; auto. rewrite lstep_erase. exact I'. }
+  pose proof (places_length N _ I0) as Hlen.
+  pose proof I0 as [Hn Hts Hfrom Hto Hfib Hprog Hloc].
+  unfold lstep. set (s := base x) in *. unfold step.
+  unfold fib_ok in Hfib. unfold T0 in Hlen, Hfib, Hprog, Hloc, Hto, L, G.
+  remember (thr s 0) as T eqn:HT.
+  unfold lok in Hloc. unfold gloc in L. unfold pendT in G. unfold held in Hlen, Hfib.
+  destruct (pc T) eqn:Hpc; cbn [base byp];
+    try (assert (Hto' : sto s 0 = 3 - sfrom s 0) by (apply Hto; congruence)).
+  - (* PSpawnR *)
+    destruct (Z.eqb_spec (fstt s f) 0) as [E|E].
+    + cbn [fst]. rewrite T0_set_thr. split; [exact G|exact I].
+    + fin_g x T. exact G.
+  - (* PSpawnW *)
+    destruct Hloc as (Hr & Hf & Hz).
+    cbn [fst]. rewrite T0_set_thr. split.
+    + eapply GI_frame; [exact G|]. intros g Hg. cbn [fstt set_thr set_fs] in Hg. unfold upd in Hg.
+      destruct (Nat.eqb_spec g f); [congruence|auto].
+    + unfold gloc; cbn. apply (g_zero _ _ _ _ _ _ G). lia.
+  - (* PSched *)
+    destruct Hloc as [Hf2 Hk]. rewrite Hts, Hto'.
+    destruct (Fq_push s (f :: dq s (3 - sfrom s 0)) Hfrom) as [EF ES].
+    assert (Hl1 : length (Fq s) + 1 <= N).
+    { destruct k; cbn [length] in Hlen; lia. }
+    destruct k; try contradiction; fin_g x T; rewrite EF, ES;
+      apply GI_push; auto; exact G.
+  - (* PBlockW *)
+    destruct Hloc as [Hc H1]. cbn [fst]. rewrite T0_set_thr. split; [|exact I].
+    eapply GI_frame; [exact G|]. intros g Hg. cbn [fstt set_thr set_fs] in Hg. unfold upd in Hg.
+    destruct (Nat.eqb_spec g (cur T)); [subst g|auto]. right. apply (g_zero _ _ _ _ _ _ G). lia.
+  - (* PYRead *)
+    cbn [fst]. rewrite T0_set_thr. split; [exact G|exact I].
+  - (* PN1 *)
+    destruct (dq s (sfrom s 0)); cbn [fst]; rewrite T0_set_thr; (split; [exact G|exact I]).
+  - (* PN2 *) cbn [fst]; rewrite T0_set_thr; (split; [exact G|exact I]).
+  - (* PN3 *) cbn [fst]; rewrite T0_set_thr; (split; [exact G|exact I]).
+  - (* PN4 *)
+    destruct Hloc as (Hk & HF & Htmp & Hsv). subst sv tmp. cbn [fst].
+    destruct (Fq_swap s Hfrom) as [EF ES].
+    rewrite T0_set_thr, Fq_set_thr, Sq_set_thr, EF, ES. split; [|exact I].
+    rewrite HF in *. apply GI_swap; [exact G|]. cbn [length] in Hlen. lia.
+  - (* PN5 *) cbn [fst]; rewrite T0_set_thr; (split; [exact G|exact I]).
+  - (* PN6 *)
+    destruct (dq s (sfrom s 0)) eqn:EF.
+    + unfold next_ret. destruct k; try contradiction; fin_g x T; exact G.
+    + cbn [fst]; rewrite T0_set_thr; (split; [exact G|exact I]).
+  - (* PN7 *)
+    destruct (dq s (sfrom s 0)) as [|y rest] eqn:EF.
+    + cbn [fst]; rewrite T0_set_thr; (split; [exact G|exact I]).
+    + cbn [fst]. destruct (Fq_pop s rest Hfrom) as [E1 E2].
+      rewrite T0_set_thr, Fq_set_thr, Sq_set_thr, E1, E2. split; [|exact I].
+      unfold Fq in G at 1. rewrite EF in G. apply (GI_pop _ _ _ _ _ _ G).
+  - (* PN8 *)
+    destruct Hloc as [Hk Hx]. rewrite Hx. cbn [Z.eqb base byp].
+    pose proof (Hfib x0) as [_ _ _ _ Hrx]. destruct x0 as [|y']; [lia|].
+    assert (HG : GI N (fstt s) (Fq s) (Sq s) 0
+                   (fun g => if Nat.eqb g (S y') then 0 else if Z.eqb (fstt s g) 2 then S (byp x g) else byp x g)).
+    { apply GI_hand; [exact G|]. intros g Hg Hne.
+      pose proof (Hfib g) as [_ _ Hp _ _]. specialize (Hp (or_intror Hg)).
+      assert (cnt (S y' :: opt (cur T)) g = 0).
+      { cbn [cnt]. rewrite cnt_opt. destruct (Nat.eqb_spec (S y') g); [congruence|].
+        destruct (Nat.eqb_spec (cur T) 0); auto. destruct (Nat.eqb_spec (cur T) g); auto.
+        subst g. unfold kok in Hk. destruct k; try contradiction; lia. }
+      assert (1 <= cnt (Fq s ++ Sq s) g) by (rewrite cnt_app; lia).
+      apply cnt_In in H0. apply in_app_or in H0. exact H0. }
+    unfold next_ret. destruct k; try contradiction; cbn [fst]; rewrite T0_set_thr; (split; [exact HG|]);
+      unfold gloc; cbn [pc with_pc]; rewrite Nat.eqb_refl; reflexivity.
+  - (* PN9 *) contradiction.
+  - (* PY2 *)
+    destruct Hloc as (Hc & H13 & Hnf).
+    destruct (Z.eqb_spec (fstt s (cur T)) 1); cbn [fst]; rewrite T0_set_thr; (split; [exact G|]);
+      unfold gloc; cbn [pc with_pc]; auto.
+    split; auto. apply (g_zero _ _ _ _ _ _ G). pose proof (Hfib 0) as [_ _ _ _ Hr0]. 
+    intros E0. rewrite E0 in Hr0. assert (1 <= 0 <= N) by (apply Hr0; discriminate). lia.
+  - (* PY3 *)
+    destruct Hloc as (Hc & H1 & Hnf). cbn [fst]. rewrite T0_set_thr. split.
+    + eapply GI_frame; [exact G|]. intros g Hg. cbn [fstt set_thr set_fs] in Hg. unfold upd in Hg.
+      destruct (Nat.eqb_spec g (cur T)); [congruence|auto].
+    + unfold gloc; cbn [pc with_pc]. split; auto. apply (g_zero _ _ _ _ _ _ G). lia.
+  - (* PY4 *)
+    destruct Hloc as (Hc & Hnf & Hts0). destruct L as [L1 L2].
+    assert (HG : GI N (upd (fstt s) nf 1%Z) (Fq s) (Sq s) 0 (byp x)).
+    { eapply GI_frame; [exact G|]. intros g Hg. unfold upd in Hg.
+      destruct (Nat.eqb_spec g nf); [subst; auto|auto]. }
+    destruct ts as [|ts'].
+    + fin_g x T. exact HG.
+    + cbn [fst]. rewrite T0_set_thr. split; [exact HG|]. unfold gloc; cbn [pc with_pc]. exact L2.
+  - (* PL1 *)
+    unfold lb_continue. rewrite Hn. rewrite lb_scan_1thread.
+    destruct Hloc as [[-> Hc]|[-> Hr]]; unfold lb_ret.
+    + cbn [fst]. rewrite T0_set_thr. split; [exact G|exact I].
+    + fin_g x T. exact G.
+  - (* PL2 *) contradiction.
+  - (* PI1 *)
+    destruct Hloc as [Hc Hnf]. fin_g x T.
+    eapply GI_frame; [exact G|]. intros g Hg. cbn [fstt set_thr set_fs] in Hg. unfold upd in Hg.
+    destruct (Nat.eqb_spec g nf); [subst; auto|auto].
+  - (* PW1 *)
+    destruct (Z.eqb_spec (fstt s f) 3).
+    + cbn [fst]; rewrite T0_set_thr; (split; [exact G|exact I]).
+    + fin_g x T. exact G.
+  - (* PW2 *)
+    destruct Hloc as [Hr H3]. cbn [fst]. rewrite T0_set_thr. split.
+    + eapply GI_frame; [exact G|]. intros g Hg. cbn [fstt set_thr set_fs] in Hg. unfold upd in Hg.
+      destruct (Nat.eqb_spec g f); [congruence|auto].
+    + unfold gloc; cbn [pc with_pc]. apply (g_zero _ _ _ _ _ _ G). lia.
+  - (* Fin *)
+    cbn [fst]. unfold gloc, pendT, T0. fold s. rewrite <- HT, Hpc. split; [exact G|exact I].
 Qed.
